@@ -74,7 +74,9 @@ THEOREMS = [
         "vector_input_is_row write_input_normalised plumb_spec write_replaces_file read_back_bits read_back_bits_subnormal "
         "read_back_bits_finite read_back_needs_17 dir_matches_load_ascii sparse_views_ascii "
         # Props/C04Fix.lean: the binary nonbigmat writer with _split_strings (F2 repaired; Model/Op4Fixed.lean)
-        "split_strings_spec nonbigmat_never_overflows_fixed nonbigmat_writes_fixed column_roundtrip_nonbigmat_fixed nonbigmat_unchanged_fixed file_writes_fixed file_roundtrip_binary_fixed write_domain_fixed file_roundtrip_binary_domain_fixed file_roundtrip_bytes_domain_fixed decOf_cases writer_eq_unsplit file_writer_eq_unsplit"
+        "split_strings_spec nonbigmat_never_overflows_fixed nonbigmat_writes_fixed column_roundtrip_nonbigmat_fixed nonbigmat_unchanged_fixed file_writes_fixed file_roundtrip_binary_fixed write_domain_fixed file_roundtrip_binary_domain_fixed file_roundtrip_bytes_domain_fixed decOf_cases writer_eq_unsplit file_writer_eq_unsplit "
+        # Props/C04AsciiBits.lean: the ASCII round trip of whole files in bit patterns, dense and sparse read
+        "entryBits_aEntry file_roundtrip_ascii_bits ascii_bits_entry sparse_view_ascii_toarray"
     ).split()
 ]
 TRUSTED = [
@@ -128,16 +130,20 @@ PARTIAL = (
     "proved now: the sparse=True view and the sparse=None rule for binary files (coo_view_correct, sparse_auto_rule), "
     "sparse inputs = their ndarray (write_sparse_eq_write_dense), input normalisation and argument plumbing "
     "(write_input_normalised), the writer's true domain (file_roundtrip_binary_domain), float(decimal) = the printed "
-    "double for digits >= 16 (read_back_bits*), dir on written ASCII files (dir_matches_load_ascii). Still not proved: "
-    "(1) .toarray() of the sparse=True result is proved for binary files only (for ASCII files sparse_views_ascii gives "
-    "the triplets of printed decimals and the sparse=None rule; the rounding of each decimal is read_back_bits); (2) that scipy's sp.find / tocoo / toarray compute what foundAt / cooToDense say (summation "
+    "double for digits >= 16 (read_back_bits*), dir on written ASCII files (dir_matches_load_ascii), the ASCII round trip "
+    "of whole files in bit patterns for digits 16..73 - dense read, sparse=True triplets and their .toarray() "
+    "(file_roundtrip_ascii_bits, ascii_bits_entry, sparse_view_ascii_toarray: every element of every matrix a finite "
+    "double with Wide d b = false or 17 <= d, the hypothesis FileFin; complex elements pass through re + 1j*im in both "
+    "reads, which is cooEntry: only the sign of a zero part can change). Still not proved: "
+    "(1) for ASCII files written with fewer than 16 digits (and for a negative value with a 3-digit exponent at 16) the "
+    "reads are proved as printed decimals only (file_roundtrip_ascii, sparse_views_ascii, ascii_value_half_unit), the "
+    "double is then the correctly rounded decimal by definition of decBits; digits 74..5000 have the per-field theorem "
+    "only (perline = 0, outside file_roundtrip_ascii); (2) that scipy's sp.find / tocoo / toarray compute what foundAt / cooToDense say (summation "
     "order of duplicates, zero signs) and numpy's astype what Raw.toD says is tied by the wr / tod streams, not proved; "
     "write_sparse_eq_write_dense is about the ndarray denseMat (the found sums), which equals A.toarray() only up to the "
     "sign of zero parts and, from three duplicates of one position on, the last bit of the sum; (3) the automatic form "
     "(autoForm, np.allclose as a parameter) is a model definition checked by correspondence, no theorem; (4) "
-    "read_back_bits is per field ((pyFloat? (fmtE d b)).map decBits = some b for every finite double, digits 16..5000): "
-    "the file-level statement follows entry by entry from file_roundtrip_ascii + ascii_entry_spec but is not restated; "
-    "complex elements of the sparse read additionally pass through re + 1j*im (cooEntry); (5) dir / load on ASCII variants the writer never produces and files with carriage returns are outside "
+    "(closed: file_roundtrip_ascii_bits); (5) dir / load on ASCII variants the writer never produces and files with carriage returns are outside "
     "(C11); the ASCII writer's ValueError above 99 999 999 rows is not modelled; (6) the binary nonbigmat writer with "
     "_split_strings (F2 repaired in /repo, 27f7d6b) is Model/Op4Fixed.lean encMatWordsFx / writeFileWordsFx: the whole-file "
     "theorems are proved for it without any hypothesis on string lengths (Props/C04Fix.lean: file_writes_fixed, "
@@ -175,7 +181,12 @@ MANIFEST = {
     "printed with one digit less (numform(value), F3 repaired: fmtE_width; the half unit is then of that digit); with "
     "digits >= 16 the decimal rounds back to the bit-identical double, for every finite double incl. subnormals and "
     "signed zeros - for a negative value with a 3-digit exponent from digits >= 17 on - (read_back_bits, read_back_bits_subnormal, read_back_bits_finite; 16 significant digits are not enough: "
-    "read_back_needs_17); the sparse views of ASCII files are the same triplets / rule with printed decimals "
+    "read_back_needs_17); and so for whole files: for digits 16..73 and matrices of finite doubles (FileFin: a negative value "
+    "with a 3-digit exponent only from 17 digits on) the matrix load builds holds at every position exactly the bits "
+    "written, names / shapes / forms / types as above (file_roundtrip_ascii_bits, ascii_bits_entry; a complex element is "
+    "built as re + 1j*im, which can change the sign of a zero part only: cooEntry), the sparse=True read returns exactly "
+    "the triplets the binary reader returns and its .toarray() is the dense read up to the sign of zeros "
+    "(sparse_view_ascii_toarray); below 16 digits the sparse views of ASCII files are the same triplets / rule with printed decimals "
     "(sparse_views_ascii); dir lists exactly what load returns (dir_matches_load_ascii; binary: C11). ascii_slicing, "
     "ascii_column_roundtrip_{dense,bigmat,nonbigmat} for every partition into strings; _sparse_col_stats yields exactly "
     "the maximal runs and the word count the readers consume to zero.",
@@ -683,6 +694,8 @@ def _digit_sweep_cases(rng):
             D[0, 0], D[1, 0], D[2, 0], D[5, 0], D[6, 0] = vals[0], vals[1], vals[2], vals[3], vals[4]
             D[1:4, 1] = vals[5:8]
             D[rows - 1, 3] = vals[8]
+            if digits is not None and digits >= 17:
+                D[3, 3] = -2.5e-120  # negative, three-digit exponent (Wide): bit-identical from 17 digits on
             if cplx:
                 D[1, 0] = complex(vals[1], vals[9])
                 D[5, 0] = complex(0.0, vals[10])
@@ -1594,6 +1607,15 @@ def correspondence(ctx):
                             ctx.count("aread:rejected")
                         if any(_neg3(_logical(m), d_) for m in case["mats"]):
                             ctx.count("aread:neg3")  # a negative value with a three-digit exponent, read back
+                        # the domain of file_roundtrip_ascii_bits / sparse_view_ascii_toarray (FileFin), both sides of
+                        # its Wide hypothesis: 16 digits without a neg3 value, >= 17 digits with one, complex elements
+                        if d_ >= 16 and model[0] != "error":
+                            n3 = any(_neg3(_logical(m), d_) for m in case["mats"])
+                            if d_ >= 17 or not n3:
+                                ctx.count("aread:bits-domain-" + ("16" if d_ == 16 else "17+")
+                                          + ("-neg3" if n3 else ""))
+                                if any(m["cplx"] for m in case["mats"]):
+                                    ctx.count("aread:bits-domain-complex")
                 else:
                     model = r
                 if model != impl:
@@ -1620,7 +1642,9 @@ def correspondence(ctx):
                               "kind:sparse-complex", "kind:ndarray-real", "read:dec-a-sparse", "read:dec-a-dense",
                               "stream:aread", "aread:neg3", "aread:dense-real", "aread:dense-complex",
                               "aread:bigmat-real", "aread:bigmat-complex", "aread:nonbigmat-real",
-                              "aread:nonbigmat-complex", "digits:default", "digits:>16"]
+                              "aread:nonbigmat-complex", "digits:default", "digits:>16",
+                              "aread:bits-domain-16", "aread:bits-domain-17+", "aread:bits-domain-17+-neg3",
+                              "aread:bits-domain-complex"]
                              + ["digits:%d" % d for d in range(1, 17)]
                              + ["stream:avar", "avar:dense", "avar:bigmat", "avar:nonbigmat", "avar:D-exponent",
                                 "avar:E-exponent", "avar:single", "avar:double", "avar:complex", "avar:lower-format",
@@ -1717,6 +1741,24 @@ def _rounded(D, digits):
         return float(s)
 
     out = np.array([one(x) for x in flat.tolist()], float).reshape(flat.shape)
+    if np.iscomplexobj(v):
+        return out.view(np.complex128).reshape(v.shape)
+    return out.reshape(v.shape)
+
+
+def _want_ascii(D, digits):
+    """file_roundtrip_ascii_bits, model-free: with digits >= 17 every finite double reads back bit-identical, with
+    digits == 16 every one that is not a negative value with a three-digit exponent (those are printed with 16
+    significant digits: _rounded); below 16 digits the value rounded to the printed digits"""
+    if digits >= 17:
+        return D
+    R = _rounded(D, digits)
+    if digits < 16:
+        return R
+    v = np.ascontiguousarray(D)
+    flat = (v.view(np.float64) if np.iscomplexobj(v) else v).reshape(-1)
+    rflat = (np.ascontiguousarray(R).view(np.float64) if np.iscomplexobj(v) else np.ascontiguousarray(R)).reshape(-1)
+    out = np.array([r if len("%.*E" % (digits, x)) > digits + 7 else x for x, r in zip(flat.tolist(), rflat.tolist())], float)
     if np.iscomplexobj(v):
         return out.view(np.complex128).reshape(v.shape)
     return out.reshape(v.shape)
@@ -1830,7 +1872,7 @@ def _check_roundtrip_(op4, sc, case, inputs, binary):
                 return ("dtype", str(A.dtype), "complex" if m["cplx"] else "float")
             if int(rf[k]) not in _expected_form(m, case["forms"][k]):
                 return ("form", int(rf[k]), sorted(_expected_form(m, case["forms"][k])))
-            want = D if (binary or case["digits"] >= 17) else _rounded(D, case["digits"])
+            want = D if binary else _want_ascii(D, case["digits"])
             if not _same_bits(A, want):
                 bad = np.argwhere(~((A == want) | ((A != A) & (want != want))))
                 i, j = (int(bad[0][0]), int(bad[0][1])) if len(bad) else (-1, -1)
@@ -1856,7 +1898,7 @@ def _check_roundtrip_(op4, sc, case, inputs, binary):
     for nm, X in dct.items():
         k = max(i for i, n in enumerate(names) if n == nm)
         m = case["mats"][k]
-        want = m["D"] if (binary or case["digits"] >= 17) else _rounded(m["D"], case["digits"])
+        want = m["D"] if binary else _want_ascii(m["D"], case["digits"])
         if not _same_bits(np.asarray(X), want):
             return ("dict-values", nm, "matrix %d" % k)
     # named subsets = the full read filtered by name: every single name (a repeated one included), as a string and
@@ -1877,7 +1919,7 @@ def _check_roundtrip_(op4, sc, case, inputs, binary):
                 return ("namelist", sn, [names[i] for i in idx])
             for X, i in zip(sm, idx):
                 m = case["mats"][i]
-                want = m["D"] if (binary or case["digits"] >= 17) else _rounded(m["D"], case["digits"])
+                want = m["D"] if binary else _want_ascii(m["D"], case["digits"])
                 if not _same_bits(np.asarray(X), want):
                     return ("namelist-values", arg, "matrix %d" % i)
             if list(sd) != list(dict.fromkeys(names[i] for i in idx)):
@@ -1885,7 +1927,7 @@ def _check_roundtrip_(op4, sc, case, inputs, binary):
             for nm, X in sd.items():
                 k = max(i for i in idx if names[i] == nm)
                 m = case["mats"][k]
-                want = m["D"] if (binary or case["digits"] >= 17) else _rounded(m["D"], case["digits"])
+                want = m["D"] if binary else _want_ascii(m["D"], case["digits"])
                 if not _same_bits(np.asarray(X), want):
                     return ("namelist-dict-values", nm, "matrix %d (the last of that name)" % k)
     return None
